@@ -32,22 +32,25 @@ open(d + "/patch.diff", "w").write(diff)
 shutil.copy(wt + "/demo.py", d + "/demo.py")
 if os.path.exists(wt + "/SEED_NOTES.md"):
     shutil.copy(wt + "/SEED_NOTES.md", d + "/SEED_NOTES.md")
-# run our checks against /repo with the patch applied, then undo
-rc, out = sh(f"git -C /repo status --porcelain", cwd="/verif", env=dict(os.environ))
-assert not out.strip(), "/repo not clean: " + out
-rc, out = sh(f"git -C /repo apply {d}/patch.diff", cwd="/verif", env=dict(os.environ))
+# run our checks against a scratch copy of /repo/src with the patch applied (VERIF_REPO_SRC), so that background
+# runs judging /repo itself are not disturbed; equivalent to `git -C /repo apply` + checks + `git -C /repo checkout -- .`
+scratch = f"/dev/shm/seedsrc-{os.getpid()}"
+shutil.rmtree(scratch, ignore_errors=True)
+os.makedirs(scratch)
+shutil.copytree("/repo/src", scratch + "/src", ignore=shutil.ignore_patterns("__pycache__"))
+rc, out = sh(f"git apply {d}/patch.diff", cwd=scratch, env=dict(os.environ))
 assert rc == 0, out
 meta["checks"] = {}
 try:
     for p in props:
-        e2 = dict(os.environ, VERIF_MAX_MINIMISE="2", VERIF_MINIMISE_S="30")
+        e2 = dict(os.environ, VERIF_MAX_MINIMISE="2", VERIF_MINIMISE_S="30", VERIF_REPO_SRC=scratch + "/src")
         t0 = time.time()
         rc, out = sh(f"./check {p} --tier quick", cwd="/verif", env=e2)
         vl = [l[:400] for l in out.splitlines() if l.startswith("VIOLATION")]
         meta["checks"][p] = {"exit": rc, "wall_s": round(time.time() - t0, 1), "violations": vl[:3],
                              "summary": [l[:300] for l in out.splitlines() if l.startswith("runs=")]}
 finally:
-    sh("git -C /repo checkout -- .", cwd="/verif", env=dict(os.environ))
+    shutil.rmtree(scratch, ignore_errors=True)
 meta["caught_by"] = [p for p, r in meta["checks"].items() if r["exit"] == 1]
 json.dump(meta, open(d + "/meta.json", "w"), indent=1)
 print(json.dumps(meta, indent=1))
